@@ -20,7 +20,7 @@ func init() {
 		Explanation: "Decides the structural necessity conditions of the prefilter, not language inclusion for all patterns x inputs: R1 capture discipline: in rx.Evaluate a result that can be true is returned either with tx.Capturing()==false or after the full submatch search (every fast path is closed for capturing rules); " +
 			"R2 the artefacts stored in a compiled @rx (prefilter, minimum length, exact-match literal) come from the reviewed constructors only; reject-only: the minimum-length test and the prefilter function can only lead to 'return false' without side effects, never to a positive result; " +
 			"R3 necessity table over the regexp/syntax walkers (switch cases located through guard facts on re.Op): operators that may match zero times (OpQuest, OpStar, OpRepeat with Min==0) contribute no required literal and length 0; an alternation yields nothing as soon as one branch yields nothing and its length is the minimum over branches; a concatenation's length is the sum; a character class or any-char counts 1 byte; only OpBeginText/OpEndText count as anchors; filterShort is never applied to an 'any of' set; prefix/suffix tests are used only for the literal adjacent to the anchor; trie suffixes are taken from the start of a branch; every case-insensitive prefilter sits behind the isASCII guard (every return of prefilterFunc is nil, a length-only closure, the guarded wrapper, or case-sensitive); " +
-			"R3 also: the anchor element is recognised by a predicate that accepts only the bare anchor (not a group starting with it), the needle list is reordered only when neither positional test is enabled, and every literal is lower-cased whenever the matcher is case-insensitive (whatever the flags of its own node), arithmetic case folding of a byte is confined to letters by a range test, every literal returned by the trie extractors is non-empty (so the length filter of trieReconstruct never drops a word of an 'any of' set); R4 the prefilter switch is part of the @rx cache key (two WAFs with different settings never share a compiled artefact). R3 also: a loop-carried flag of the literal search loops is cleared only on an edge carrying Index*(s[i:], x) < 0 for an unbounded tail.",
+			"R3 also: the anchor element is recognised by a predicate that accepts only the bare anchor (not a group starting with it), the needle list is reordered only when neither positional test is enabled, and every literal is lower-cased whenever the matcher is case-insensitive (whatever the flags of its own node), arithmetic case folding of a byte is confined to letters by a range test, every literal returned by the trie extractors is non-empty (so the length filter of trieReconstruct never drops a word of an 'any of' set); R4 the prefilter switch is part of the @rx cache key (two WAFs with different settings never share a compiled artefact). R3 also: a loop-carried flag of the literal search loops is cleared only on an edge carrying Index*(s[i:], x) < 0 for an unbounded tail. R1 also: every branch of (*binaryRX).Evaluate depends on the compiled byte pattern's own answer, tx.Capturing() or the capture index only (the byte matcher has no prefilter). R3 also: the text and the fold flag returned by extractExactMatch are read from one syntax node.",
 		NotDecided: []string{
 			"soundness of the literal extraction for all patterns x inputs (language inclusion), e.g. Unicode case-fold equivalents of literals",
 			"the Wu-Manber style multi-needle matcher and the ASCII-fold helpers (algorithmic)",
